@@ -48,6 +48,13 @@ Theorem C16_run_schedule_sound :
 Proof. exact @run_schedule_sound. Qed.
 Print Assumptions C16_run_schedule_sound.
 
+(* ... and produces all of them: the schedules of the correspondence reach every execution the property covers *)
+Theorem C16_run_schedule_complete :
+  forall (X : Type) (ws : list (list X)) (tr : list X),
+    interleaving ws tr -> exists sched, run_schedule sched ws = Some tr /\ length sched = length tr.
+Proof. exact @run_schedule_complete. Qed.
+Print Assumptions C16_run_schedule_complete.
+
 (* an integrand that raises: K j i = None.  The threaded assembler (workers record the exception, the first one is
    raised again after all workers are joined - re-read from the source as gen_errors_reraised_after_join) raises
    exactly when the serial double loop does, for every thread count *)
